@@ -292,8 +292,10 @@ class Ctx:
                  'Import ListNotations.', 'Open Scope float_scope.']
         P = t.printerF
         pyres = []
+        margins = []
         for c in cases:
             kind, val, path, memo = emit.run_tree(t.tree, c)
+            margins.append(emit.LAST_MARGIN[0])
             # oracle values for this case: evaluate (some may be off-path; evaluate defensively)
             ovals = []
             for e in P.oracles:
@@ -319,7 +321,7 @@ class Ctx:
             self.broken.append({'kind': 'correspondence', 'target': tname,
                                 'error': f'parsed {len(outs)} results for {len(cases)} cases'})
             return
-        for c, co, (pk, pv, path) in zip(cases, outs, pyres):
+        for c, co, (pk, pv, path), margin in zip(cases, outs, pyres, margins):
             st['cases'] += 1
             st['paths'][path] = st['paths'].get(path, 0) + 1
             io = call_outcome(impl, c)
@@ -361,6 +363,14 @@ class Ctx:
                     st['max_ulp'] = max(st['max_ulp'], d if math.isfinite(d) else 1e300)
                     if d > tol_ulp:
                         bad = f"outputs differ by {d:.3g} ulp-units (> {tol_ulp})"
+            if bad:
+                insc = max([1.0] + [abs(float(v)) for v in c.values() if math.isfinite(float(v))])
+                if margin < 1e-10 * insc:
+                    # the case sits on a branch boundary (some decision's two sides differ by less than 1e-10 of the
+                    # data scale but not exactly 0): evaluation order decides the branch in binary64, so model and
+                    # implementation may legitimately take different sides.  Counted, not reported.
+                    st['boundary_skipped'] = st.get('boundary_skipped', 0) + 1
+                    bad = None
             if bad:
                 st['disagree'] += 1
                 if st['disagree'] <= 3:
